@@ -264,7 +264,9 @@ LJudge2(m, fl, p, e) ==
     [] OTHER -> IF p.resp THEN <<"X03.map_local", "unexpected_response", m.taint.ml>> ELSE <<>>
 LJudge(m, fl, p) ==
   IF MLTrav(m.w, fl, m.act.ml)
-  THEN (IF p.resp /\ p.code = 200 /\ \E f \in (1..Len(m.files)) \ InsideFiles(m.w) : p.sb = m.files[f].c /\ p.sb # <<>>
+  THEN (IF p.resp /\ p.code = 200 /\ p.sb # <<>>
+           /\ (\E f \in (1..Len(m.files)) \ InsideFiles(m.w) : p.sb = m.files[f].c)
+           /\ ~(\E g \in InsideFiles(m.w) \ {0} : m.files[g].present /\ p.sb = m.files[g].c)      \* content identifies the file
         THEN <<"X03.map_local", "traversal", m.taint.ml>> ELSE <<>>)
   ELSE LJudge2(m, fl, p, MLRun(m.w, m.files, fl, m.act.ml, FALSE, FALSE))
 LWit2(m, fl, e) ==
